@@ -527,6 +527,15 @@ func randAddrs(r *vh.Rand) []string {
 // validEdit applies one edit that keeps a valid configuration valid; it
 // returns a label for the histogram.
 func validEdit(r *vh.Rand, c *Cfg) string {
+	for try := 0; try < 6; try++ {
+		if l := validEdit1(r, c); l != "edit:none" {
+			return l
+		}
+	}
+	return "edit:none"
+}
+
+func validEdit1(r *vh.Rand, c *Cfg) string {
 	switch r.Pick(14, 10, 10, 8, 10, 8, 4, 4, 4, 3, 6) {
 	case 0: // add a target
 		k := tnames[r.Intn(len(tnames))]
@@ -836,6 +845,31 @@ func pairUniverse(thorough bool) []*Cfg {
 	return out
 }
 
+// universe of the nil-pointer pair family: one request name whose value is
+// absent / a nil pointer / the empty message / a subscription, two targets
+// that either use it or are absent
+func nilUniverse() []*Cfg {
+	var out []*Cfg
+	for _, r1 := range []int{-1, 0, 1, 2} {
+		for t1 := 0; t1 < 2; t1++ {
+			for t2 := 0; t2 < 2; t2++ {
+				c := &Cfg{}
+				if r1 >= 0 {
+					c.Reqs = append(c.Reqs, Req{K: "r1", V: r1})
+				}
+				if t1 == 1 {
+					c.Tgts = append(c.Tgts, Tgt{K: "t1", Addrs: []string{"a:1"}, Req: "r1"})
+				}
+				if t2 == 1 {
+					c.Tgts = append(c.Tgts, Tgt{K: "t2", Addrs: []string{"a:1"}, Req: "r1", O: 3})
+				}
+				out = append(out, c)
+			}
+		}
+	}
+	return out
+}
+
 func cfgValid(c *Cfg) bool {
 	for _, t := range c.Tgts {
 		if t.K == "" || t.Nil || len(t.Addrs) == 0 || t.Req == "" || c.hasReq(t.Req) < 0 {
@@ -971,7 +1005,7 @@ func main() {
 	if f := flag.Lookup("stderrthreshold"); f != nil {
 		f.Value.Set("FATAL")
 	}
-	meta := vh.NewMeta("corpus cases; every ordered pair (A, B) of configurations over two target names x two request names (target: absent / ->r1 addr a / ->r1 addr b / ->r2 addr a; request: absent / content 1 / content 2) loaded as revisions 1 and 2 (quick: A valid; thorough: all, plus revision 2-then-2 and 2-then-1, plus A as base); seeded random histories of 2..7 loads evolving one configuration by 0..3 edits per load (add/remove/edit target, re-point, edit/rename/swap/add/remove request, nil request pointer, other fields), invalid variants, nil loads, revision deltas {+1,0,-1,+5,-7,+-2^40}, with and without a (valid/invalid/nil) base; 'alias' histories in which the caller also edits its loaded message in place. distinct = distinct (base, operations); non-trivial = some accepted load on a non-nil current configuration that produced at least one handler call")
+	meta := vh.NewMeta("corpus cases; every ordered pair (A, B) of configurations over two target names x two request names (target: absent / ->r1 addr a / ->r1 addr b / ->r2 addr a; request: absent / content 1 / content 2) loaded as revisions 1 and 2 (quick: A valid; thorough: all, plus revision 2-then-2 and 2-then-1, plus A as base); every ordered pair over one request name whose value is absent / nil pointer / empty message / a subscription and two targets using it or absent (256); seeded random histories of 2..7 loads evolving one configuration by 0..3 edits per load (add/remove/edit target, re-point, edit/rename/swap/add/remove request, nil request pointer, other fields), invalid variants, nil loads, revision deltas {+1,0,-1,+5,-7,+-2^40}, with and without a (valid/invalid/nil) base; 'alias' histories in which the caller also edits its loaded message in place. distinct = distinct (base, operations); non-trivial = some accepted load on a non-nil current configuration that produced at least one handler call")
 	e := &emitter{dir: o.Out, cf: vh.NewCaseFile(), meta: meta, limit: 1500}
 
 	if o.Replay != "" {
@@ -1031,6 +1065,14 @@ func main() {
 				ca.Rev, cb.Rev = 1, 2
 				e.add(Case{Family: "pairs-base", Base: ca, Ops: []Op{{K: "load", Cfg: cb}}})
 			}
+		}
+	}
+	nu := nilUniverse()
+	for _, a := range nu {
+		for _, b := range nu {
+			ca, cb := cloneCfg(a), cloneCfg(b)
+			ca.Rev, cb.Rev = 1, 2
+			e.add(Case{Family: "pairs-nil", Ops: []Op{{K: "load", Cfg: ca}, {K: "load", Cfg: cb}}})
 		}
 	}
 	meta.Extra["pair_universe_size"] = len(uni)
